@@ -130,6 +130,28 @@ class StartStageHandler(
                     return
 
                 # NOT_READY or UNDEFINED - need to wait or retry
+                if stage.status != WorkflowStatus.NOT_STARTED:
+                    # The stage already started (or finished): this StartStage is
+                    # a later upstream's trigger, e.g. the losing branch of a
+                    # fired DISCRIMINATOR / N_OF_M join. There is nothing to
+                    # wait for - re-queuing it would poll for the whole retry
+                    # budget and then try to fail a running/finished stage.
+                    logger.debug(
+                        "Ignoring StartStage for %s (%s) - already %s (%s)",
+                        stage.name,
+                        stage.id,
+                        stage.status,
+                        readiness.reason,
+                    )
+                    if message.message_id:
+                        with self.repository.transaction(self.queue) as txn:
+                            txn.mark_message_processed(
+                                message_id=message.message_id,
+                                handler_type="StartStage",
+                                execution_id=message.execution_id,
+                            )
+                    return
+
                 # Check if any upstream stage is active (RUNNING, NOT_STARTED, etc.)
                 # If so, we can safely stop polling because the upstream stage
                 # will trigger a new StartStage message when it completes.
